@@ -217,7 +217,7 @@ Qed.
    becomes the global block gb_achars, five cells c s i m f per row).  For ALL ints the translated functions
    return what ShapeDefs.v (the model C18_shape speaks about) says; the memory is not written; no load leaves
    its block, no signed operation overflows, no fuel runs out.  Proofs: coq/TrShape.v.  (uc_shape itself --
-   the neighbour search that feeds uc_cshape and uc_cput -- stays tied by correspondence.) *)
+   the neighbour search that feeds uc_cshape and uc_cput -- follows further down: C18_tr_uc_shape.) *)
 From NV Require Import TrShape.
 
 (* the block the translator read from the initializer of achars[] is the table translate.py generated *)
